@@ -128,7 +128,7 @@ func (r rng) genWords(n int, style int) []uint64 {
 }
 
 // genLen draws a mantissa length in words for a size class:
-// 0 tiny (1-2), 1 small (1-4), 2 medium (4-24), 3 large (20-70), 4 huge (60-130).
+// 0 tiny (1-2), 1 small (1-4), 2 medium (4-24), 3 large (20-70), 4 huge (60-130), 5 giant (170-360).
 func (r rng) genLen(class int) int {
 	switch class {
 	case 0:
@@ -139,8 +139,10 @@ func (r rng) genLen(class int) int {
 		return r.rangeI(4, 24)
 	case 3:
 		return r.rangeI(20, 70)
-	default:
+	case 4:
 		return r.rangeI(60, 130)
+	default:
+		return r.rangeI(170, 360)
 	}
 }
 
